@@ -87,6 +87,9 @@ A = {a.name: a for a in [
     _a("consume(q)", "consume(q)", T("q")),
     _a("consume(r)", "consume(r)", T("r")),
     _a("r=q", "r = q", T("q", "move"), P("r")),
+    # the variable is re-bound to a classical value (another type): the qubit state of `q` ends here
+    _a("q=1", "q = 1", ("PN", "q")),
+    _a("use-int(q)", 'result("q", q)', ("BN", "q")),
     _a("q=r", "q = r", T("r", "move"), P("q")),
     # parameters
     _a("h(p)", "h(p)", B("p")),
@@ -192,6 +195,7 @@ def _pick(*names):
 FAMILIES = {
     # everything starts undefined
     "core": ((), _pick("q=new", "h(q)", "consume(q)", "r=q", "consume(r)", "return"), "None"),
+    "retype": (_pick("q=new"), _pick("h(q)", "consume(q)", "q=1", "use-int(q)", "return"), "None"),
     # q is live from the start
     "live": (_pick("q=new"),
              _pick("q=new", "h(q)", "consume(q)", "r=q", "consume(r)", "return"), "None"),
@@ -244,10 +248,10 @@ def bounds(tier: str):
     if tier == "quick":
         return [("core", 4, 2), ("live", 4, 2), ("params", 3, 2), ("tuple", 3, 2),
                 ("struct", 3, 2), ("struct2", 3, 2), ("retq", 3, 2), ("balanced", 3, 2), ("exotic", 2, 1),
-                ("forms", 3, 2), ("tensor", 3, 2), ("arrays", 3, 2), ("project", 2, 1)]
+                ("forms", 3, 2), ("tensor", 3, 2), ("arrays", 3, 2), ("project", 2, 1), ("retype", 5, 2)]
     return [("core", 5, 3), ("live", 5, 3), ("params", 4, 3), ("tuple", 4, 2), ("struct", 4, 2),
             ("struct2", 4, 2), ("retq", 4, 3), ("balanced", 4, 3), ("core+", 4, 2), ("exotic", 3, 2),
-            ("forms", 4, 2), ("tensor", 4, 2), ("arrays", 4, 2), ("project", 3, 2)]
+            ("forms", 4, 2), ("tensor", 4, 2), ("arrays", 4, 2), ("project", 3, 2), ("retype", 5, 3)]
 
 
 def programs(tier: str):
@@ -279,6 +283,9 @@ def _step_factory(events: set):
         for op in atom.meta:
             i = IDX[op[1]]
             cur = st[i]
+            if op[0] in ("B", "T") and cur == "N":
+                events.add("undef")          # a qubit operation on an int: type error, not linearity
+                return ()
             if op[0] == "B":
                 if cur == "U":
                     events.add("undef")
@@ -305,6 +312,18 @@ def _step_factory(events: set):
                     events.add("viol:overwrite-leak")
                     return ()
                 st[i] = "O"
+            elif op[0] == "BN":
+                if cur != "N":
+                    events.add("undef")      # reporting a qubit / an undefined name: not a linearity question
+                    return ()
+            elif op[0] == "PN":
+                if cur == "L":
+                    events.add("exotic:assign-borrowed-param")
+                    return ()
+                if cur == "O":
+                    events.add("viol:overwrite-leak")
+                    return ()
+                st[i] = "N"
             elif op[0] == "XV":
                 events.add("viol:linear-component-of-unnamed-value-lost")
                 return ()
@@ -370,7 +389,7 @@ def model(body, ret_ty: str) -> dict:
 # --------------------------------------------------------------------- implementation
 PRELUDE_MOD = "vc06_prelude"
 PRELUDE_SRC = '''from guppylang import guppy, qubit
-from guppylang.std.builtins import owned, array, barrier
+from guppylang.std.builtins import owned, array, barrier, result
 from guppylang.std.quantum import h, cx, measure, discard_array
 from guppylang.std.debug import state_result
 from collections.abc import Callable
@@ -413,7 +432,7 @@ def app(f: Callable[[qubit], None], q: qubit) -> None: ...
 def appo(f: Callable[[qubit @owned], None], q: qubit @owned) -> None: ...
 '''
 HEADER = (f"from {PRELUDE_MOD} import guppy, qubit, owned, h, S, S2, consume, consume_s, "
-          f"consume_u, borrow_s, consume_t, mkpair, mktriple, mkmixed, mkmixed2, mks2, mks, mkarr, ident, app, appo, array, barrier, cx, measure, discard_array, state_result\n")
+          f"consume_u, borrow_s, consume_t, result, mkpair, mktriple, mkmixed, mkmixed2, mks2, mks, mkarr, ident, app, appo, array, barrier, cx, measure, discard_array, state_result\n")
 
 
 def _ensure_prelude() -> None:
